@@ -24,31 +24,20 @@ import (
 	"github.com/bilibili/gengine/context"
 	"github.com/bilibili/gengine/engine"
 
+	"gverif/dispatch"
 	"gverif/obs"
 )
 
-type Rule struct {
-	Name string `json:"name"`
-	Sal  int64  `json:"sal"`
-	Tpl  string `json:"tpl"` // "A": falls off the end, "B": ends in `return fin(..)`
-}
+// Rule: Tpl "A" falls off the end, "B" ends in `return fin(..)`.
+type Rule = dispatch.RuleDecl
 
-type Call struct {
-	Method string            `json:"method"`
-	Via    string            `json:"via"` // direct | em | emMulti | emSelected (pool only)
-	B      bool              `json:"b"`
-	Names  []string          `json:"names"`
-	N      int               `json:"n"`
-	M      int               `json:"m"`
-	Dag    [][]string        `json:"dag"`
-	Beh    map[string]string `json:"beh"`
-	TagSet []string          `json:"tagset"`
-}
+type Call = dispatch.Call
 
 type Session struct {
 	ID     int    `json:"id"`
 	Target string `json:"target"` // engine | pool
 	Gated  bool   `json:"gated"`
+	Burst  bool   `json:"burst"`
 	Rules  []Rule `json:"rules"`
 	Calls  []Call `json:"calls"`
 }
@@ -89,7 +78,11 @@ var cur *runCtx // replaced between calls, never during one
 var poolCache = map[string]*engine.GenginePool{}
 var kcCache = map[string]*builder.RuleBuilder{}
 
-func (c *runCtx) val(name string) int64 { return int64(c.callNo*1000 + c.idx[name] + 1) }
+func (c *runCtx) val(name string) int64 {
+	n := 0
+	fmt.Sscanf(strings.TrimLeft(name, "r"), "%d", &n)
+	return int64(c.callNo*1000 + n)
+}
 
 func apis() map[string]interface{} {
 	return map[string]interface{}{
@@ -141,121 +134,6 @@ func keysOf(m map[string]interface{}) [][]string {
 	return ks
 }
 
-func engineCall(g *engine.Gengine, rb *builder.RuleBuilder, c *Call, st *engine.Stag) error {
-	switch c.Method {
-	case "Execute":
-		return g.Execute(rb, c.B)
-	case "ExecuteWithStopTagDirect":
-		return g.ExecuteWithStopTagDirect(rb, c.B, st)
-	case "ExecuteConcurrent":
-		return g.ExecuteConcurrent(rb)
-	case "ExecuteMixModel":
-		return g.ExecuteMixModel(rb)
-	case "ExecuteMixModelWithStopTagDirect":
-		return g.ExecuteMixModelWithStopTagDirect(rb, st)
-	case "ExecuteSelectedRules":
-		return g.ExecuteSelectedRules(rb, c.Names)
-	case "ExecuteSelectedRulesWithControl":
-		return g.ExecuteSelectedRulesWithControl(rb, c.B, c.Names)
-	case "ExecuteSelectedRulesWithControlAsGivenSortedName":
-		return g.ExecuteSelectedRulesWithControlAsGivenSortedName(rb, c.B, c.Names)
-	case "ExecuteSelectedRulesWithControlAndStopTag":
-		return g.ExecuteSelectedRulesWithControlAndStopTag(rb, c.B, st, c.Names)
-	case "ExecuteSelectedRulesWithControlAndStopTagAsGivenSortedName":
-		return g.ExecuteSelectedRulesWithControlAndStopTagAsGivenSortedName(rb, c.B, st, c.Names)
-	case "ExecuteSelectedRulesConcurrent":
-		return g.ExecuteSelectedRulesConcurrent(rb, c.Names)
-	case "ExecuteSelectedRulesMixModel":
-		return g.ExecuteSelectedRulesMixModel(rb, c.Names)
-	case "ExecuteInverseMixModel":
-		return g.ExecuteInverseMixModel(rb)
-	case "ExecuteSelectedRulesInverseMixModel":
-		return g.ExecuteSelectedRulesInverseMixModel(rb, c.Names)
-	case "ExecuteNSortMConcurrent":
-		return g.ExecuteNSortMConcurrent(c.N, c.M, rb, c.B)
-	case "ExecuteNConcurrentMSort":
-		return g.ExecuteNConcurrentMSort(c.N, c.M, rb, c.B)
-	case "ExecuteNConcurrentMConcurrent":
-		return g.ExecuteNConcurrentMConcurrent(c.N, c.M, rb, c.B)
-	case "ExecuteSelectedNSortMConcurrent":
-		return g.ExecuteSelectedNSortMConcurrent(c.N, c.M, rb, c.B, c.Names)
-	case "ExecuteSelectedNConcurrentMSort":
-		return g.ExecuteSelectedNConcurrentMSort(c.N, c.M, rb, c.B, c.Names)
-	case "ExecuteSelectedNConcurrentMConcurrent":
-		return g.ExecuteSelectedNConcurrentMConcurrent(c.N, c.M, rb, c.B, c.Names)
-	case "ExecuteDAGModel":
-		return g.ExecuteDAGModel(rb, c.Dag)
-	}
-	panic("driver: unknown method " + c.Method)
-}
-
-var emOf = map[string]int{
-	"Execute": engine.SortModel, "ExecuteConcurrent": engine.ConcurrentModel,
-	"ExecuteMixModel": engine.MixModel, "ExecuteInverseMixModel": engine.InverseMixModel,
-	"ExecuteSelectedRules": engine.SortModel, "ExecuteSelectedRulesConcurrent": engine.ConcurrentModel,
-	"ExecuteSelectedRulesMixModel": engine.MixModel, "ExecuteSelectedRulesInverseMixModel": engine.InverseMixModel,
-}
-
-func poolCall(p *engine.GenginePool, c *Call, st *engine.Stag) (error, map[string]interface{}) {
-	data := map[string]interface{}{"stag": st}
-	switch c.Via {
-	case "em":
-		_ = p.SetExecModel(emOf[c.Method])
-		return p.ExecuteRulesWithSpecifiedEM("stag", st, "", nil)
-	case "emMulti":
-		_ = p.SetExecModel(emOf[c.Method])
-		return p.ExecuteRulesWithMultiInputWithSpecifiedEM(data)
-	case "emSelected":
-		_ = p.SetExecModel(emOf[c.Method])
-		return p.ExecuteSelectedWithSpecifiedEM(data, c.Names)
-	}
-	switch c.Method {
-	case "Execute":
-		return p.Execute(data, c.B)
-	case "ExecuteWithStopTagDirect":
-		return p.ExecuteWithStopTagDirect(data, c.B, st)
-	case "ExecuteConcurrent":
-		return p.ExecuteConcurrent(data)
-	case "ExecuteMixModel":
-		return p.ExecuteMixModel(data)
-	case "ExecuteMixModelWithStopTagDirect":
-		return p.ExecuteMixModelWithStopTagDirect(data, st)
-	case "ExecuteSelectedRules":
-		return p.ExecuteSelectedRules(data, c.Names)
-	case "ExecuteSelectedRulesWithControl":
-		return p.ExecuteSelectedRulesWithControl(data, c.B, c.Names)
-	case "ExecuteSelectedRulesWithControlAsGivenSortedName":
-		return p.ExecuteSelectedRulesWithControlAsGivenSortedName(data, c.B, c.Names)
-	case "ExecuteSelectedRulesWithControlAndStopTag":
-		return p.ExecuteSelectedRulesWithControlAndStopTag(data, c.B, st, c.Names)
-	case "ExecuteSelectedRulesWithControlAndStopTagAsGivenSortedName":
-		return p.ExecuteSelectedRulesWithControlAndStopTagAsGivenSortedName(data, c.B, st, c.Names)
-	case "ExecuteSelectedRulesConcurrent":
-		return p.ExecuteSelectedRulesConcurrent(data, c.Names)
-	case "ExecuteSelectedRulesMixModel":
-		return p.ExecuteSelectedRulesMixModel(data, c.Names)
-	case "ExecuteInverseMixModel":
-		return p.ExecuteInverseMixModel(data)
-	case "ExecuteSelectedRulesInverseMixModel":
-		return p.ExecuteSelectedRulesInverseMixModel(data, c.Names)
-	case "ExecuteNSortMConcurrent":
-		return p.ExecuteNSortMConcurrent(c.N, c.M, c.B, data)
-	case "ExecuteNConcurrentMSort":
-		return p.ExecuteNConcurrentMSort(c.N, c.M, c.B, data)
-	case "ExecuteNConcurrentMConcurrent":
-		return p.ExecuteNConcurrentMConcurrent(c.N, c.M, c.B, data)
-	case "ExecuteSelectedNSortMConcurrent":
-		return p.ExecuteSelectedNSortMConcurrent(c.N, c.M, c.B, c.Names, data)
-	case "ExecuteSelectedNConcurrentMSort":
-		return p.ExecuteSelectedNConcurrentMSort(c.N, c.M, c.B, c.Names, data)
-	case "ExecuteSelectedNConcurrentMConcurrent":
-		return p.ExecuteSelectedNConcurrentMConcurrent(c.N, c.M, c.B, c.Names, data)
-	case "ExecuteDAGModel":
-		return p.ExecuteDAGModel(c.Dag, data)
-	}
-	panic("driver: unknown method " + c.Method)
-}
-
 type outcome struct {
 	err    error
 	keys   map[string]interface{}
@@ -286,10 +164,20 @@ func runSession(s *Session, quiet time.Duration, seed int64, callTimeout time.Du
 	var g *engine.Gengine
 	var rb *builder.RuleBuilder
 	var pool *engine.GenginePool
+	mutates := false
+	for _, c := range s.Calls {
+		if len(c.Pre) > 0 {
+			mutates = true
+		}
+	}
 	if s.Target == "pool" {
 		// one pool per rule text and process: later sessions reuse it (compiling
-		// dominates the cost of a session otherwise)
+		// dominates the cost of a session otherwise); never when the session
+		// changes the rule set
 		p, ok := poolCache[text]
+		if mutates {
+			ok = false
+		}
 		if !ok {
 			var err error
 			p, err = engine.NewGenginePool(1, 2, engine.SortModel, text, api)
@@ -297,7 +185,9 @@ func runSession(s *Session, quiet time.Duration, seed int64, callTimeout time.Du
 				fmt.Fprintf(os.Stderr, "driver: session %d: pool construction failed: %v\n%s\n", s.ID, err, text)
 				os.Exit(2)
 			}
-			poolCache[text] = p
+			if !mutates {
+				poolCache[text] = p
+			}
 		}
 		pool = p
 	} else {
@@ -309,12 +199,17 @@ func runSession(s *Session, quiet time.Duration, seed int64, callTimeout time.Du
 		rb = builder.NewRuleBuilder(dc)
 		if len(s.Rules) > 0 {
 			kc, ok := kcCache[text]
+			if mutates {
+				ok = false
+			}
 			if !ok {
 				if err := rb.BuildRuleFromString(text); err != nil {
 					fmt.Fprintf(os.Stderr, "driver: session %d: compile failed: %v\n%s\n", s.ID, err, text)
 					os.Exit(2)
 				}
-				kcCache[text] = rb
+				if !mutates {
+					kcCache[text] = rb
+				}
 			} else {
 				rb.Kc = kc.Kc
 			}
@@ -328,9 +223,68 @@ func runSession(s *Session, quiet time.Duration, seed int64, callTimeout time.Du
 		rules = append(rules, map[string]interface{}{"name": r.Name, "sal": r.Sal})
 	}
 
+	curRules := append([]Rule{}, s.Rules...)
 	for ci := range s.Calls {
 		c := &s.Calls[ci]
+		for _, u := range c.Pre {
+			var err error
+			switch u.Op {
+			case "incr":
+				if pool != nil {
+					err = pool.UpdatePooledRulesIncremental(ruleText(u.Rules))
+				} else {
+					err = rb.BuildRuleWithIncremental(ruleText(u.Rules))
+				}
+				for _, nr := range u.Rules {
+					found := false
+					for i := range curRules {
+						if curRules[i].Name == nr.Name {
+							curRules[i] = nr
+							found = true
+						}
+					}
+					if !found {
+						curRules = append(curRules, nr)
+					}
+				}
+			case "full":
+				if pool != nil {
+					err = pool.UpdatePooledRules(ruleText(u.Rules))
+				} else {
+					err = rb.BuildRuleFromString(ruleText(u.Rules))
+				}
+				curRules = append([]Rule{}, u.Rules...)
+			case "remove":
+				if pool != nil {
+					err = pool.RemoveRules(u.Names)
+				} else {
+					err = rb.RemoveRules(u.Names)
+				}
+				var kept []Rule
+				for _, r := range curRules {
+					del := false
+					for _, n := range u.Names {
+						if n == r.Name {
+							del = true
+						}
+					}
+					if !del {
+						kept = append(kept, r)
+					}
+				}
+				curRules = kept
+			}
+			if err != nil {
+				fmt.Fprintf(os.Stderr, "driver: session %d: update %s failed: %v\n", s.ID, u.Op, err)
+				os.Exit(2)
+			}
+		}
+		rules = make([]map[string]interface{}, 0, len(curRules))
+		for _, r := range curRules {
+			rules = append(rules, map[string]interface{}{"name": r.Name, "sal": r.Sal})
+		}
 		o := obs.New(s.Gated, quiet, seed+int64(s.ID)*131+int64(ci))
+		o.Burst = s.Burst
 		ts := map[string]bool{}
 		for _, n := range c.TagSet {
 			ts[n] = true
@@ -352,9 +306,9 @@ func runSession(s *Session, quiet time.Duration, seed int64, callTimeout time.Du
 				done <- oc
 			}()
 			if pool != nil {
-				oc.err, oc.keys = poolCall(pool, c, stag)
+				oc.err, oc.keys = dispatch.PoolCall(pool, c, stag, map[string]interface{}{"stag": stag})
 			} else {
-				oc.err = engineCall(g, rb, c, stag)
+				oc.err = dispatch.EngineCall(g, rb, c, stag)
 				oc.keys, _ = g.GetRulesResultMap()
 			}
 		}()
